@@ -155,7 +155,10 @@ def work(item):
     res = Result(key)
     from orquestra.quantum.circuits import _gates as G
 
-    res.fn(G.ControlledGate.matrix.fget, G.Dagger.matrix.fget, G.Power.matrix.fget, G.Exponential.matrix.fget, G.MatrixFactoryGate.dagger.fget, G.Power.dagger.fget, G.ControlledGate.dagger.fget, G.Dagger.controlled, G.Power.controlled, G.ControlledGate.power, G.Exponential.dagger.fget, G.ControlledGate.replace_params, G.Dagger.replace_params, G.Power.replace_params, G.Exponential.replace_params)
+    try:  # evidence only: a renamed private helper must not break the check
+        res.fn(G.ControlledGate.matrix.fget, G.Dagger.matrix.fget, G.Power.matrix.fget, G.Exponential.matrix.fget, G.MatrixFactoryGate.dagger.fget, G.Power.dagger.fget, G.ControlledGate.dagger.fget, G.Dagger.controlled, G.Power.controlled, G.ControlledGate.power, G.Exponential.dagger.fget, G.ControlledGate.replace_params, G.Dagger.replace_params, G.Power.replace_params, G.Exponential.replace_params)
+    except AttributeError:
+        pass
     signal.signal(signal.SIGALRM, _alarm)
     signal.alarm(item.get("timeout", 60))
     try:
